@@ -2,11 +2,17 @@ package main
 
 import (
 	"bytes"
+	"context"
 	"encoding/json"
 	"fmt"
 	"net/url"
 	"os"
 	"reflect"
+	"sort"
+
+	ds "github.com/ipfs/go-datastore"
+	dssync "github.com/ipfs/go-datastore/sync"
+	"github.com/ipfs/ipfs-cluster/state/dsstate"
 
 	"github.com/ipfs/ipfs-cluster/api"
 	codec "github.com/ugorji/go/codec"
@@ -27,6 +33,20 @@ func encode(rec *wire.Record, format string, v reflect.Value) (bs []byte, err er
 		return buf.Bytes(), err
 	case wire.FJSON:
 		return json.Marshal(ptr)
+	case wire.FSnapshot:
+		st, err := dsstate.New(dssync.MutexWrap(ds.NewMapDatastore()), "", dsstate.DefaultHandle())
+		if err != nil {
+			return nil, err
+		}
+		snap := ptr.(*wire.Snapshot)
+		for i := range snap.Pins {
+			if err := st.Add(context.Background(), &snap.Pins[i]); err != nil {
+				return nil, err
+			}
+		}
+		var buf bytes.Buffer
+		err = st.Marshal(&buf)
+		return buf.Bytes(), err
 	case wire.FQuery:
 		switch p := ptr.(type) {
 		case *api.PinOptions:
@@ -55,6 +75,25 @@ func decode(rec *wire.Record, format string, bs []byte) (out reflect.Value, err 
 		err = codec.NewDecoder(bytes.NewReader(bs), h).Decode(ptr)
 	case wire.FJSON:
 		err = json.Unmarshal(bs, ptr)
+	case wire.FSnapshot:
+		var st *dsstate.State
+		st, err = dsstate.New(dssync.MutexWrap(ds.NewMapDatastore()), "", dsstate.DefaultHandle())
+		if err != nil {
+			break
+		}
+		if err = st.Unmarshal(bytes.NewReader(bs)); err != nil {
+			break
+		}
+		var pins []*api.Pin
+		pins, err = st.List(context.Background())
+		if err != nil {
+			break
+		}
+		snap := ptr.(*wire.Snapshot)
+		for _, p := range pins {
+			snap.Pins = append(snap.Pins, *p)
+		}
+		sort.Slice(snap.Pins, func(i, j int) bool { return wire.CidTok(snap.Pins[i].Cid) < wire.CidTok(snap.Pins[j].Cid) })
 	case wire.FQuery:
 		var q url.Values
 		q, err = url.ParseQuery(string(bs))
